@@ -117,7 +117,8 @@ def job_factory(res):
             raise CxxThrow(obj, {'std': '_ZTISt13runtime_error', 'h5': '_ZTIN2H59ExceptionE', 'other': '_ZTIi'}[kind])
         def typeid_(ex, st, fr, a, ins):
             n = ex.tinfo_name(a[0]); return ex.typeid_for(n) if n else 0
-        args = [OPtr('sret'), OPtr('fname'), z3.BitVec('step', 64)] + [z3.Real(x) for x in ('qmin', 'qmax', 'pmin', 'pmax')] + [0] + [z3.Real(x) for x in ('Qb', 'Ib', 'bl', 'dE')]
+        sw = getattr(mod.resolve(mod.funcs[fn].params[2][0]), 'bits', 64)      # width of the record-number parameter as declared
+        args = [OPtr('sret'), OPtr('fname'), z3.BitVec('step', sw)] + [z3.Real(x) for x in ('qmin', 'qmax', 'pmin', 'pmax')] + [0] + [z3.Real(x) for x in ('Qb', 'Ib', 'bl', 'dE')]
         ex, paths, dm = uc_run(mod, fn, args, {'vfps::HDF5File::readPhaseSpace': reader, '__cxa_begin_catch': ext_cxa_begin_catch, 'llvm.eh.typeid.for': typeid_})
         res.paths += len(paths); res.instrs += sum(p.nins for p in paths)
         return ex, paths, dm
@@ -144,7 +145,8 @@ def job_factory(res):
         for i, nm in enumerate(names):
             if nm is None: continue
             v = ra[2 + i]; bad.append((v if z3.is_expr(v) else z3.RealVal(str(v))) != z3.Real(nm))
-        stp = ra[11]; bad.append((stp if z3.is_expr(stp) else z3.BitVecVal(stp, 64)) != z3.BitVec('step', 64))
+        sw = getattr(mod.resolve(mod.funcs[fn].params[2][0]), 'bits', 64); own = z3.BitVec('step', sw)
+        stp = ra[11]; bad.append((stp if z3.is_expr(stp) else z3.BitVecVal(stp, 64)) != (own if sw == 64 else z3.SignExt(64 - sw, own)))      # the record number is a signed quantity (negative: counted from the end)
         prove(res, 'makePSFromHDF5 hands the reader its own arguments in their places: qmin, qmax, pmin, pmax, charge, current, position scale, energy scale, record number', p_.pc, z3.Or(*bad), key='factory-arguments',
               cex_fn=lambda m: {'replay': 'structural', 'operands': [str(x)[:30] for x in ra[2:12]]})
     res.obs.append(Ob('makePSFromHDF5: a phase space delivered by the reader is returned as it is (no message, not replaced)', 'holds' if okp and all(not any('basic_ostream' in dm.get(e[0], '') for e in p.events if isinstance(e[0], str)) for p in okp) else 'violated', key='factory-pass'))
